@@ -75,15 +75,17 @@ DENY_EVENTS = ["exit-and-reap", "reuse-live", "stat-unreadable", "stat-readable-
 @harness("C01.history",
          quick=[dict(K=K, what=w) for w in MUTATORS for K in ((0, 1, 2, 3) if w == "send_signal" else (2,))]
          + [dict(K=2, what=w, variant="names") for w in ("terminate", "nice")] + [dict(K=3, what=w, variant="deny") for w in ("kill", "nice", "cpu_affinity")]
-         + [dict(K=3, what=w, variant="popen") for w in ("terminate", "nice")],
+         + [dict(K=3, what=w, variant="popen") for w in ("terminate", "nice")] + [dict(K=2, what=w, variant="forked") for w in ("kill", "nice")] + [dict(K=1, what=w, variant="stopped") for w in ("terminate", "kill", "resume")],
          thorough=[dict(K=K, what=w) for w in MUTATORS for K in ((3, 4) if w in ("send_signal", "nice", "cpu_affinity") else (3,))]
-         + [dict(K=3, what=w, variant="names") for w in MUTATORS] + [dict(K=K, what=w, variant="deny") for w in MUTATORS for K in (3, 4)] + [dict(K=4, what=w, variant="popen") for w in MUTATORS])
+         + [dict(K=3, what=w, variant="names") for w in MUTATORS] + [dict(K=K, what=w, variant="deny") for w in MUTATORS for K in (3, 4)] + [dict(K=4, what=w, variant="popen") for w in MUTATORS] + [dict(K=3, what=w, variant="forked") for w in MUTATORS] + [dict(K=2, what=w, variant="stopped") for w in MUTATORS])
 def history(ctx, K, what, variant=None):
     """variant "names": every incarnation carries a name from NAMES (parentheses and blanks that imitate the end of the name field)
     and the identity check must not depend on it; variant "deny": /proc/<pid>/stat may turn unreadable (EACCES) and readable again
     between calls, and may be unreadable when the object is created (hidepid, dropped privileges); variant "popen": the object is a
     psutil.Popen over a subprocess.Popen stand-in whose exit status may be collected at some point (event `status-collected`:
-    returncode set, as poll()/wait()/communicate() do)"""
+    returncode set, as poll()/wait()/communicate() do); variant "forked": the object was built by a process for ITSELF (pid ==
+    os.getpid() at that time) and is used after a fork by the child, for which it denotes the parent; variant "stopped": the target is
+    in the stopped state (T) -- exactly the signal asked for is delivered, nothing else"""
     k = simk.Kernel(ctx)
     simk.system_files(k)
     inc = [ctx.int("start0", 0, 10**7)]
@@ -98,7 +100,7 @@ def history(ctx, K, what, variant=None):
             raise simk.oserr(errno.ENOENT, f"/proc/{P}/stat")
         if state["denied"]:
             raise simk.oserr(errno.EACCES, f"/proc/{P}/stat")
-        return simk.stat_record(k, P, state["comm"], b"Z" if state["zombie"] else b"S", {4: 1, 22: inc[state["inc"]]})
+        return simk.stat_record(k, P, state["comm"], b"Z" if state["zombie"] else b"T" if variant == "stopped" else b"S", {4: 1, 22: inc[state["inc"]]})
 
     k.files[f"/proc/{P}/stat"] = stat_file
     k.dirs["/proc"] = ["1", str(P), str(Q)]
@@ -124,7 +126,11 @@ def history(ctx, K, what, variant=None):
         Popen = _Sub
 
     with k.installed(extra=[(psutil, "subprocess", _Subprocess)] if variant == "popen" else []), contextlib.ExitStack() as stack:
-        p = psutil.Popen(["child"]) if variant == "popen" else psutil.Process(P)
+        if variant == "forked":
+            k.os_proxy.getpid = lambda: P
+        p = psutil.Popen(["child"]) if variant == "popen" else psutil.Process() if variant == "forked" else psutil.Process(P)
+        if variant == "forked":
+            k.os_proxy.getpid = lambda: 4300           # fork(): the object now lives in the child and denotes its parent
         if ctx.flag("inside_oneshot_block"):      # the whole history and the mutator run inside `with p.oneshot():`
             stack.enter_context(p.oneshot())
             log.append("with p.oneshot():")
